@@ -133,6 +133,15 @@ func runOne(ctx context.Context, sp solverSpec, file string, timeoutS int) Resul
 	return Result{Status: st, Solver: sp.name, Seconds: el, Output: o}
 }
 
+// Quick runs z3 5.1 alone for t seconds (used for satisfiability canaries).
+func Quick(query, dir, name string, t int) Result {
+	file := filepath.Join(dir, name+".smt2")
+	if err := os.WriteFile(file, []byte(query), 0o644); err != nil {
+		return Result{Status: "error", Output: err.Error()}
+	}
+	return runOne(context.Background(), solvers[0], file, t)
+}
+
 // Solve runs the portfolio on a query.  Strategy: z3-new alone for `first`
 // seconds; if undecided, all three race for timeoutS seconds.  When all==true
 // every solver runs to completion and the answers are cross-checked.
